@@ -1126,13 +1126,15 @@ func c13WalletRefreshUnits(tier string) []hx.Unit {
 		depth = 4
 	}
 	accOps := []string{"A", "B"}
-	valOps := []string{"answer", "empty", "error"}
+	// beacon node: answers with Val2 active for ever / with Val2 exited from epoch 3 (a voluntary exit seen since the
+	// last refresh) / answers nothing / fails
+	valOps := []string{"answer", "answer-exited", "empty", "error"}
 	recs := map[string]struct {
 		idx phase0.ValidatorIndex
 		rec c13Rec
 	}{
 		"W/Val1": {3, c13Rec{act: 0, exit: c13FFE, wd: c13FFE}},
-		"W/Val2": {7, c13Rec{act: 0, exit: 3, wd: 5}},
+		"W/Val2": {7, c13Rec{act: 0, exit: c13FFE, wd: c13FFE}},
 		"W/Val3": {11, c13Rec{act: 0, exit: c13FFE, wd: c13FFE}},
 	}
 	allNames := []string{"W/Val1", "W/Val2", "W/Val3"}
@@ -1157,6 +1159,7 @@ func c13WalletRefreshUnits(tier string) []hx.Unit {
 				svc := walletam.VerifNewService([]string{"W"}, [][]byte{[]byte("pw")}, vm, c13ChainTime(), c13FFE, 2)
 				var log []string
 				failed := false
+				val2Exited, val2Known := false, false // Val2's record as the beacon node last delivered it
 				for step := 0; step < depth; step++ {
 					a, v := fa, fv
 					if step > 0 {
@@ -1171,8 +1174,17 @@ func c13WalletRefreshUnits(tier string) []hx.Unit {
 					} else {
 						wW.offer = []e2wtypes.Account{c13NewAccount("W", "Val2"), c13NewAccount("W", "Val3")}
 					}
-					prov.mode = []int{c13Answer, c13EmptyMap, c13Error}[v]
-					failed = failed || v != 0
+					prov.mode = []int{c13Answer, c13Answer, c13EmptyMap, c13Error}[v]
+					k2 := c13Key("W", "Val2")
+					if valOps[v] == "answer-exited" {
+						prov.table[k2] = c13Validator(k2, recs["W/Val2"].idx, c13Rec{act: 0, exit: 3, wd: 9})
+					} else {
+						prov.table[k2] = c13Validator(k2, recs["W/Val2"].idx, c13Rec{act: 0, exit: c13FFE, wd: c13FFE})
+					}
+					if v <= 1 {
+						val2Exited, val2Known = valOps[v] == "answer-exited", true
+					}
+					failed = failed || v > 1
 					log = append(log, accOps[a]+"+"+valOps[v])
 					where := fmt.Sprintf("after wallet manager refreshes %v (accounts offered + beacon node)", log)
 					svc.VerifRefreshFromWallets(ctx, []e2wtypes.Wallet{wW})
@@ -1186,6 +1198,15 @@ func c13WalletRefreshUnits(tier string) []hx.Unit {
 						copy(k[:], acc.PublicKey().Marshal())
 						_, ok := held[k]
 						return ok
+					}
+					// Val2 is offered by the wallet in every step: at epoch 4 it validates exactly if the record the
+					// beacon node last delivered for it has no exit before then
+					if val2Known {
+						d4, err4 := svc.ValidatingAccountsForEpoch(ctx, 4)
+						_, in := d4[recs["W/Val2"].idx]
+						if err4 == nil && in == val2Exited {
+							st.bad("C13/refresh/wallet-stale-validator-record", "ValidatingAccountsForEpoch(4) reports Val2=%v; the record the beacon node last delivered says exited-from-epoch-3=%v, %s", in, val2Exited, where)
+						}
 					}
 					type q struct {
 						name   string
